@@ -1,4 +1,4 @@
-\* the code as it is (H12): TLC must find RetainedIntact/StateReadsCorrect violated
+\* the code as it was at the pinned commit (both switches FALSE): TLC must find RetainedIntact violated (H12); the check generates the faithful cfgs from the switches it probes on the code
 CONSTANTS
   MaxH = 13
   InitH = 11
